@@ -329,6 +329,10 @@ def vector_terms():
            res=lambda U, V, w, P: P["c"] * U[0].v[0] * U[0].v[1] * V[0].v[1] - P["a"] * np.asarray(w.x)[1] * V[0].v[0],
            jac=lambda U, D, V, w, P: P["c"] * (D[0].v[0] * U[0].v[1] + U[0].v[0] * D[0].v[1]) * V[0].v[1],
            coef=_c(.5, 2, "c", "a"), dims=(2, 3)))
+    # order of the nonlinear terms = rotation order of the cases (det-pressure second: it meets the first
+    # 3-D case of the quick tier)
+    first = ["elasticity", "oseen-linear", "body-force", "convection", "det-pressure"]
+    T.sort(key=lambda t: first.index(t.name) if t.name in first else len(first))
     return T
 
 
